@@ -39,7 +39,8 @@ with wf_x (l : exprs) : Prop :=
 with wf_o (l : ofields) : Prop :=
   match l with
   | ONil => True
-  | ONamed k v r => is_ident k = true /\ wf v /\ wf_o r
+  (* the shorthand `{k}` stands for `k: k` whatever the identifier k is (even a reserved word) *)
+  | ONamed k v r => is_ident k = true /\ (v = EField k \/ wf v) /\ wf_o r
   | OSpread v r => wf v /\ wf_o r
   end
 with wf_a (l : afields) : Prop :=
@@ -394,7 +395,7 @@ Section RT.
   Fixpoint all_x (P : expr -> Prop) (l : exprs) : Prop :=
     match l with XNil => True | XCons e r => P e /\ all_x P r end.
   Fixpoint all_o (P : expr -> Prop) (l : ofields) : Prop :=
-    match l with ONil => True | ONamed k v r => (is_ident k = true /\ P v) /\ all_o P r | OSpread v r => P v /\ all_o P r end.
+    match l with ONil => True | ONamed k v r => (is_ident k = true /\ (v = EField k \/ P v)) /\ all_o P r | OSpread v r => P v /\ all_o P r end.
   Fixpoint all_a (P : expr -> Prop) (l : afields) : Prop :=
     match l with ANil => True | ANormal v r => P v /\ all_a P r | ASpread v r => P v /\ all_a P r | AHole r => all_a P r end.
 
@@ -493,19 +494,24 @@ Section RT.
     induction fs as [|k v r IH|v r IH]; intros Hall tail n Hn.
     - destruct n as [|n]; [lia|]. change (sx_obj names ONil true) with (@nil N). cbn [app obj_loop].
       rewrite skip_head by (reflexivity || discriminate). cbn. reflexivity.
-    - destruct Hall as [[Hk [Hwf He]] Hr]. destruct n as [|n]; [cbn in Hn; lia|].
+    - destruct Hall as [[Hk Hv] Hr]. destruct n as [|n]; [cbn in Hn; lia|].
       rewrite sx_obj_named in *. cbn [app] in *. rewrite <- !app_assoc in *.
       destruct (obj_rest r tail) as [c [q [HR [Hc [H125 H44]]]]].
       rewrite (obj_loop_ident n k _ Hk). unfold obj_named.
+      assert (Hsc : is_shortcut names k v = true -> v = EField k).
+      { intro Esc. destruct Hv as [E|[Hwf _]]; [exact E|exact (shortcut_field k v Hwf Esc)]. }
       destruct (is_shortcut names k v) eqn:Esc.
-      + rewrite (shortcut_field k v Hwf Esc) in *. cbn [app] in *. rewrite HR in *.
+      + rewrite (Hsc eq_refl) in *. cbn [app] in *. rewrite HR in *.
         rewrite field_name_ident; [|exact Hk|cbn; destruct Hc as [-> | ->]; reflexivity].
         rewrite skip_head by (destruct Hc as [-> | ->]; (reflexivity || discriminate)).
         destruct Hc as [-> | ->].
         * destruct (H125 eq_refl) as [-> ->]. cbn. reflexivity.
         * cbn. rewrite (H44 eq_refl) in *. rewrite (IH Hr tail n); [reflexivity|].
           rewrite app_length in Hn. cbn [length] in Hn. lia.
-      + change (lit ":") with [58%N] in *. cbn [app] in *. rewrite <- ?app_assoc in *. rewrite HR in *.
+      + assert (He : RT v).
+        { destruct Hv as [E|[_ He]]; [|exact He]. subst v. cbn [is_shortcut] in Esc.
+          assert (str_eqb k k = true) by (apply str_eqb_eq; reflexivity). congruence. }
+        change (lit ":") with [58%N] in *. cbn [app] in *. rewrite <- ?app_assoc in *. rewrite HR in *.
         rewrite field_name_ident; [|exact Hk|cbn; reflexivity].
         rewrite skip_head by (reflexivity || discriminate). cbn.
         rewrite (pc_sub_cond v He c q ltac:(unfold closer; destruct Hc as [-> | ->]; tauto)).
@@ -890,7 +896,7 @@ Section RT.
     - intros _. exact I.
     - intros e IHe r IHr [He Hr]. split; [split; auto|auto].
     - intros _. exact I.
-    - intros k v IHv r IHr [Hk [Hv Hr]]. split; [split; [exact Hk|split; auto]|auto].
+    - intros k v IHv r IHr [Hk [Hv Hr]]. split; [split; [exact Hk|destruct Hv as [E|Hv]; [left; exact E|right; split; auto]]|auto].
     - intros v IHv r IHr [Hv Hr]. split; [split; auto|auto].
     - intros _. exact I.
     - intros v IHv r IHr [Hv Hr]. split; [split; auto|auto].
